@@ -76,8 +76,14 @@ def run(tier, seed):
     outs = core.pmap(_replay, behs)
     maxerr = 0.0
     fams = {}
+    drift, predicted = {}, 0
     for beh, o in zip(behs, outs):
         d = beh["desc"]
+        if d["fam"] == "bin" and d["op"] == "add":
+            predicted += 1
+            for pred, obs in o.get("drift", []):
+                k = "%s + %s: model %s, library %s" % (d["a"], d["b"], pred, obs)
+                drift[k] = drift.get(k, 0) + 1
         res.evaluations += o["obs"]
         res.traces += 1
         fams[d["fam"]] = fams.get(d["fam"], 0) + 1
@@ -95,6 +101,8 @@ def run(tier, seed):
     res.notes["behaviours_per_family"] = fams
     res.notes["max_relative_error_observed"] = maxerr
     res.notes["declared_unsupported_cells"] = len(_TABLE)
+    # LORewrite (which result class `a + b` builds) against the library: information only, the property makes the choice invisible
+    res.notes["rewrite_model"] = dict(additions_predicted=predicted, cells_where_library_differs=len(drift), examples=sorted(drift)[:25])
     res.assumptions = ["values sampled; structure enumerated", "root-based operations (mul of operators, add_low_rank, cat_rows, prod) compared with the "
                        "looser tolerance of DESIGN 3.7 because they go through Cholesky/eigen decompositions"]
     return res
